@@ -47,7 +47,15 @@ pub fn series_tower(s: &Series, x: f64, u: f64) -> Vec<VE> {
                 v += t;
                 m += t.abs();
             }
-            VE { v, e: 8.0 * u * m }
+            // truncation: Special.tla's CoefDecay (|a[d+2]| (d+1)(d+2) <= |a[d]|, alternating signs) bounds the remainder by
+            // the first omitted term
+            let d = (0..s.coef.len()).rev().find(|&j| s.coef[j] != 0.0).unwrap_or(0);
+            let rem = if d + 2 >= k {
+                let mut f = 1.0;
+                for i in 0..k { f *= (d + 2 - i) as f64; }
+                s.coef[d].abs() / (((d + 1) * (d + 2)) as f64) * f * x.abs().powi((d + 2 - k) as i32)
+            } else { 0.0 };
+            VE { v, e: 8.0 * u * m + rem }
         })
         .collect()
 }
@@ -102,7 +110,7 @@ pub fn sph_points(f32mode: bool) -> Vec<f64> {
     let eps = if f32mode { f32::EPSILON as f64 } else { f64::EPSILON };
     let tiny = if f32mode { f32::MIN_POSITIVE as f64 } else { f64::MIN_POSITIVE };
     let mut v = vec![0.0, tiny, 1e-30, eps / 4.0, eps * 0.99, eps, eps * 1.01, 2.0 * eps, 1e-8, 1e-6, 1e-5, 1e-4, 1e-3,
-                     0.01, 0.02, 0.05, 0.1, 0.3, 0.7, 0.99, 1.0, 1.5, 3.14159, 4.4934, 7.0, 12.3, 25.0, 49.9, 50.0];
+                     0.01, 0.02, 0.05, 0.1, 0.15, 0.2, 0.25, 0.29, 0.2999999, 0.3, 0.3000001, 0.35, 0.7, 0.99, 1.0, 1.5, 3.14159, 4.4934, 7.0, 12.3, 25.0, 49.9, 50.0];
     let neg: Vec<f64> = v.iter().filter(|x| **x != 0.0).map(|x| -x).collect();
     v.extend(neg);
     v
@@ -165,7 +173,7 @@ impl<'a> TypeFn for SpecSweep<'a> {
                             Ok(VE { v: r.v, e: 8.0 * u * r.m + extra })
                         }).collect()
                     };
-                    let series_limit = if self.what == "bessel" { 0.05 } else { 0.02 };
+                    let series_limit = if self.what == "bessel" { 0.05 } else { 0.3 };
                     let mut tw_true: Vec<VE> = if ax <= series_limit { series_tower(ser, x, u) } else { closed_tw()? };
                     if self.what == "bessel" {
                         // C14 asks for near machine ABSOLUTE accuracy of J_n (all derivatives of J_n are O(1))
@@ -316,7 +324,7 @@ pub fn special_sweep(tabs: &Tables, series: &HashMap<String, Series>, what: &str
                     let x = if f32mode { (x0 as f32) as f64 } else { x0 };
                     let obs = if f32mode { f32f(&(x as f32)) as f64 } else { f64f(&x) };
                     let par = Params::default();
-                    let t = if x.abs() <= 0.02 { series_tower(ser, x, u)[0] } else {
+                    let t = if x.abs() <= 0.3 { series_tower(ser, x, u)[0] } else {
                         let r = eval_poly(&closed[0], &|g| generator(g, x, &par).map(|v| VM { v, m: v.abs() }))?;
                         VE { v: r.v, e: 8.0 * u * r.m }
                     };
